@@ -3,7 +3,7 @@ Variable groups over the edges of a bipartite graph (`BipartiteEdgesVariables`):
 form of the offsets, bounds and injectivity of the identifiers, meaning of the `force_*`
 generators on a sparse mapping.
 -/
-import Lemmas.FamMap
+import Lemmas.C01Map
 import Mathlib.Data.List.Basic
 namespace Cnfgen.Fam
 open Cnfgen
@@ -136,14 +136,14 @@ theorem atMostOne_row (f : SMap) (hs : 0 < f.start) (α : Assign) {u : Nat} (h1 
     (Con.lin (f.row u) .le 1).holds α = true ↔
       ∀ v ∈ f.B.rnbrs u, ∀ v' ∈ f.B.rnbrs u, α (f.var u v) = true → α (f.var u v') = true → v = v' := by
   simp only [Con.holds, Op.denote, decide_eq_true_eq]
-  rw [f.count_row hs α h1 h2, ← countP_le_one_iff _ _ hnd]; omega
+  rw [f.count_row hs α h1 h2, ← countP_le_one_iff_nodup _ _ hnd]; omega
 
 theorem atMostOne_col (f : SMap) (hs : 0 < f.start) (α : Assign) {v : Nat}
     (hc : ∀ u ∈ f.B.lnbrs v, 1 ≤ u ∧ u ≤ f.B.l) (hnd : (f.B.lnbrs v).Nodup) :
     (Con.lin (f.col v) .le 1).holds α = true ↔
       ∀ u ∈ f.B.lnbrs v, ∀ u' ∈ f.B.lnbrs v, α (f.var u v) = true → α (f.var u' v) = true → u = u' := by
   simp only [Con.holds, Op.denote, decide_eq_true_eq]
-  rw [f.count_col hs α hc, ← countP_le_one_iff _ _ hnd]; omega
+  rw [f.count_col hs α hc, ← countP_le_one_iff_nodup _ _ hnd]; omega
 
 /-! ### well-formedness -/
 
